@@ -66,7 +66,7 @@ pub fn mutate_json(json: &str, m: &JsonMutation) -> String {
     }
     let target = all[(m.arg as usize) % all.len()].clone();
     let sel = (m.arg >> 16) as usize;
-    match m.kind % 10 {
+    match m.kind % 12 {
         0 => remove(&mut v, &target),
         1 => {
             // retype
@@ -154,6 +154,37 @@ pub fn mutate_json(json: &str, m: &JsonMutation) -> String {
             let s = serde_json::to_string(&v).unwrap_or_default();
             let n = (m.arg as usize) % (s.len().max(1));
             return s[..n].to_string();
+        }
+        10 | 11 => {
+            // a struct given as the sequence of its field values (what a format without field names looks like, and
+            // what serde's derived visitors accept): the fields in the order of the document's text (the declaration
+            // order), kind 11 with one numeric member pushed out of its range on the way
+            let obj_path: Vec<String> = match sel % 3 {
+                0 => vec!["uplink".to_string()],
+                1 => vec![],
+                _ => {
+                    let mut p = target.clone();
+                    while !p.is_empty() && !matches!(get_mut(&mut v, &p), Some(Value::Object(_))) {
+                        p.pop();
+                    }
+                    p
+                }
+            };
+            if let Some(Value::Object(mm)) = get_mut(&mut v, &obj_path) {
+                let mut keys: Vec<(usize, String)> = mm.keys().map(|k| (json.find(&format!("\"{k}\":")).unwrap_or(usize::MAX), k.clone())).collect();
+                keys.sort();
+                let mut vals: Vec<Value> = keys.iter().map(|(_, k)| mm.get(k).cloned().unwrap_or(Value::Null)).collect();
+                if m.kind % 12 == 11 {
+                    let nums: Vec<usize> = vals.iter().enumerate().filter(|(_, x)| x.is_number()).map(|(i, _)| i).collect();
+                    if !nums.is_empty() {
+                        let i = nums[(sel / 3) % nums.len()];
+                        vals[i] = Value::from(((m.arg >> 8) % 256) as u64);
+                    }
+                }
+                if let Some(t) = get_mut(&mut v, &obj_path) {
+                    *t = Value::Array(vals);
+                }
+            }
         }
         _ => {
             // adr counter and flags
